@@ -734,6 +734,9 @@ structure Facts where
   /-- hydraidectl compact ends when the instance cannot be stopped: the offline compaction of the model
       (`mStep … (.compactOff …)`: nothing happens while a writer is open) never meets a running server -/
   cliAbortsWhenStopFails : Tri
+  /-- CompactIfNeeded / ForceCompact / CompactDirectory are `Compactor.Compact` on one file (or nothing): the
+      statements about one compaction of one file are statements about each of them -/
+  wrappersDelegate : Tri
   /-- the reader assumptions of the model (established by C04): a payload that is not the one
       written fails the checksum; the decoded length and the entry count are checked -/
   validatesCrc : Tri
@@ -756,7 +759,7 @@ def modelApplies (f : Facts) : Bool :=
   f.loadCleansTemp != .unknown && f.closeFsyncs != .unknown &&
   f.shortHeaderIsEOF != .unknown && f.tornDataIsEOF != .unknown && f.truncatesTornTail != .unknown &&
   f.flushesAtCountBound.isYes && f.validatesCrc.isYes && f.validatesULen.isYes && f.parseConsumesAll.isYes &&
-  f.zeroTailIsEOF != .unknown && f.lockedClosesWriterFirst.isYes && f.cliAbortsWhenStopFails.isYes
+  f.zeroTailIsEOF != .unknown && f.lockedClosesWriterFirst.isYes && f.cliAbortsWhenStopFails.isYes && f.wrappersDelegate.isYes
 
 def findings (f : Facts) : List String :=
   (if EP.rmFirst (cfgOf f) .locked then [] else ["C03-locked-stale-temp"]) ++
